@@ -1,7 +1,47 @@
 """C02 - operator input reaches the attached shell intact, in order and promptly."""
-import itertools
+import itertools, json, os
 import brokerlib as B
 import vlib
+
+IIMPORTS = "From CRS Require Import Lib.Bytes Judge.Common Judge.C02In."
+ICLAUSES = {1: "a Ctrl+I / Tab insert did not reach the line channel as ONE intact line (split, altered, lost or duplicated)",
+            2: "lines entered faster than they were taken did not come out complete and in the order entered",
+            11: "Judge/C02In.insert_lines differs from what Shell.insert sends"}
+
+
+def operator_side(run):
+    """lib/opshell, upstream of the broker: the real Shell.insert and the real Shell.Do line reader (pty child)."""
+    ok, binp, log = vlib.build_overlay_test(run.rundir, "lib/opshell")
+    run.checker_cmds.append("go1.26 test -c -tags verif -overlay (harness/overlay/opshell): TestVerifInput - the real Shell.insert with generated sources, the real "
+                            "Shell.Do reading pasted lines from a pipe while nobody takes them from the line channel")
+    if not ok:
+        run.oblige("opshell harness builds against /repo", False, log)
+        return
+    sizes = [1, 100, 32767, 32768, 32769, 65536, 65537, 100000] + ([1 << 20] if run.tier != "quick" else [])
+    cases = [{"i": k, "mode": "insert", "size": n} for k, n in enumerate(sizes)]
+    for n in ([200, 1024, 1025, 3000] if run.tier == "quick" else [200, 1024, 1025, 3000, 5000, 20000]):
+        cases.append({"i": len(cases), "mode": "paste", "lines": n})
+    inf, outf = os.path.join(run.rundir, "input.in"), os.path.join(run.rundir, "input.out")
+    with open(inf, "w") as f:
+        for c in cases:
+            f.write(json.dumps(c) + "\n")
+    env = dict(os.environ, VERIF_CASES=inf, VERIF_OUT=outf, VERIF_TMP=run.rundir)
+    rc, out = vlib.run_under_pty([binp, "-test.run", "^TestVerifInput$", "-test.count=1", "-test.timeout", "600s"], env, run.rundir, timeout=700)
+    res = [json.loads(l) for l in open(outf)] if os.path.exists(outf) else []
+    if rc != 0 or len(res) != len(cases) or any(r.get("fail") for r in res):
+        run.oblige("operator side: harness ran all cases under a pty", False, "rc=%s got %d of %d: %s" % (rc, len(res), len(cases), out[-1500:].decode(errors="replace")))
+        return
+    B_ = lambda x: str(bool(x)).lower()
+    def term(c, r):
+        if c["mode"] == "insert":
+            return "mki false %d [%s] %s 0 true" % (c["size"], "; ".join(str(x) for x in r.get("items") or []), B_(r.get("concat_ok")))
+        return "mki true %d [] true %d %s" % (c["lines"], r.get("received", 0), B_(r.get("first_out_of_order", 0) == -1))
+    vlib.judge_stream(run, "operatorside", IIMPORTS, "icase", cases, res, term, ICLAUSES, (0,),
+                      "operator side (lib/opshell): Ctrl+I inserts of 1 B ... 100000 B (thorough: 1 MiB) around io.Copy's 32 KiB buffer size, through the real "
+                      "Shell.insert - exactly one intact line must reach the line channel; pastes of 200 - 3000 (thorough: 20000) lines through the real "
+                      "Shell.Do while nobody takes lines for 400 ms (the 1024-deep channel fills) - all must come out, in order; non-trivial = above 32 KiB / "
+                      "above the channel's depth", key_fn=lambda c: json.dumps(c))
+
 
 CLAUSES = {2: "C02 monitor failed: lines taken from the operator are not a gap-free, duplicate-free, in-order run of the entered lines each followed by "
               "exactly one newline; a write was not followed by the flush its writer kind requires before the next line; a line entered while a "
@@ -63,10 +103,12 @@ def check(run):
     n = 400 if run.tier == "quick" else 6000
     hs = [B.gen_history(run.rng, run.rng.choice([10, 20, 40])) for _ in range(n)]
     B.run_stream(run, binp, "histories", 2, hs, CLAUSES, "random histories with shells attaching and detaching while lines are entered (see C01)")
+    operator_side(run)
     run.assumptions += ["that http.ResponseWriter.FlushError pushes the bytes onto the network is net/http's business; the harness observes that the "
                         "flush is CALLED after every write and before the next line is taken",
                         "when a line and a cancellation are ready at the same time Go's select may take either; the harness never creates that race "
                         "(every step runs to quiescence), both outcomes satisfy the statement"]
+    run.trusted += ["harness/overlay/opshell/zz_verif_input_test.go, coq/Judge/C02In.v"]
     run.trusted += ["harness/overlay/iobroker", "props/brokerlib.py", "coq/Model/Broker.v tied by this correspondence"]
 
 
